@@ -53,9 +53,28 @@ def make_histories(ctx, n):
                 q = gen.malformed(rng, qg)
             else:
                 q = qg.query()
+            if h and rng.random() < 0.25:
+                q = rng.choice(h)[0]        # the same string again, later in the history
             h.append((q, rng.choice(["module", "module", "thread"])))
         hs.append(h)
     return hs
+
+
+def scribble(t):
+    """what a caller may do with the tree it was given (quick start, "manipulating"): edit it in place. The parser
+    must hand out a new tree on every call; a later parse of the same string must not see these edits
+    (seeded C11-F: parse results memoised by text)"""
+    stack = [t]
+    while stack:
+        n = stack.pop()
+        stack.extend(n.children)
+        n.head = (n.head or "") + "#"
+        n.tail = "#"
+        n.pos = -7
+        if type(n).__name__ == "Word":
+            n.value = "scribbled"
+        elif type(n).__name__.endswith("Operation"):
+            n.children = list(reversed(n.children))
 
 
 def run(ctx):
@@ -69,6 +88,9 @@ def run(ctx):
             r, t = parsing.impl_parse(q, entry)
             flat.append((q, entry, r, prev))
             prev = q
+            if t is not None and ctx.rng.random() < 0.5:
+                scribble(t)
+                ctx.count("returned tree edited in place by the caller")
     distinct = sorted({q for q, _, _, _ in flat})
     ref = dict(zip(distinct, fresh_results(distinct)))
     if ctx.model_ok:
